@@ -660,6 +660,40 @@ func init() {
 				out.Violate("C11|bad-section-not-config-error-mock:"+own, fmt.Sprintf("a %s section yields %+v", own, o), text, nil, o)
 			}
 		}
+		// ---- what the option of the configurable CRL lint selects, against the model of its rule (Kernels/Calendar.v): every
+		// revocation list under the default, SubscriberCRL = true and SubscriberCRL = false (thisUpdate before the lint's
+		// effective date gives NE and is left out)
+		{
+			crls := append(append([]CorpusCRL{}, loadCorpus().CRLs...), crlZoo()...)
+			for vi, text := range []string{"", "[e_crl_next_update_invalid]\nSubscriberCRL = true\n", "[e_crl_next_update_invalid]\nSubscriberCRL = false\n"} {
+				cfg, err := lint.NewConfigFromString(text)
+				if err != nil {
+					continue
+				}
+				fr, err := lint.GlobalRegistry().Filter(lint.FilterOptions{IncludeNames: []string{"e_crl_next_update_invalid"}})
+				if err != nil {
+					continue
+				}
+				fr.SetConfiguration(cfg)
+				for _, cc := range crls {
+					if len(cc.CRL.RevokedCertificates) > 1000 {
+						continue
+					}
+					var st int = -1
+					func() {
+						defer func() { recover() }()
+						if r := zlint.LintRevocationListEx(cc.CRL, fr).Results["e_crl_next_update_invalid"]; r != nil {
+							st = int(r.Status)
+						}
+					}()
+					if st == int(lint.NE) {
+						continue
+					}
+					out.Add("crlcfg", Case{Coq: fmt.Sprintf("(%s, %s, %s, %s, %s)", cqBool(!cc.CRL.NextUpdate.IsZero()), cqZ(cc.CRL.ThisUpdate.Unix()), cqZ(cc.CRL.NextUpdate.Unix()), cqBool(vi != 2), cqZ(int64(st))),
+						Tag: fmt.Sprintf("%d/%d", vi, st), Desc: map[string]interface{}{"crl": cc.File, "config": text, "status": st}})
+				}
+			}
+		}
 		return out.Emit()
 	}
 }
